@@ -86,6 +86,10 @@ impl World {
                 Ok(_) => Outcome::Ok,
                 Err(e) => err_outcome(e),
             },
+            DOp::SetExt { key, val } => {
+                c.set_extension(format!("k{key}"), anda_db::schema::Fv::U64(*val as u64));
+                Outcome::Ok
+            }
             DOp::CompactBtree => {
                 let mut r = Ok(());
                 for (bit, fields) in [(IX_NAME, &["name"][..]), (IX_AGE, &["age"][..]), (IX_TAGS, &["tags"][..])] {
